@@ -5,6 +5,7 @@ real load() of the written package. Output side B: vlib.iolab.decode - an indepe
 only by the written descriptor. Both must give back the typed values that entered the dumper.
 """
 import copy
+import datetime
 import decimal
 import os
 
@@ -31,6 +32,12 @@ TEMPORAL_FMT = {'date': ['%d/%m/%Y', '%Y%m%d'], 'time': ['%H-%M-%S', '%H%M%S'],
                 'datetime': ['%d/%m/%Y %H:%M:%S', '%Y%m%dT%H%M%S']}
 
 
+_TZ = datetime.timezone
+AWARE = [datetime.datetime(2020, 1, 2, 12, 0, 0, tzinfo=_TZ(datetime.timedelta(hours=2))),
+         datetime.datetime(1999, 12, 31, 23, 59, 59, tzinfo=_TZ.utc),
+         datetime.datetime(2021, 6, 1, 0, 30, 0, tzinfo=_TZ(datetime.timedelta(hours=-9, minutes=-30)))]
+
+
 def gen_cases(tier, seed):
     n = {'quick': 480, 'thorough': 12000}[tier]
     for i in range(n):
@@ -47,6 +54,9 @@ def cell_eq(exp, got, fmt, ftype):
             except Exception:
                 return False
         return lab.value_eq(exp, got)
+    if isinstance(exp, datetime.datetime) and isinstance(got, datetime.datetime):
+        # the same wall clock AND the same offset (aware == aware compares instants only; aware == naive is False)
+        return exp.replace(tzinfo=None) == got.replace(tzinfo=None) and exp.utcoffset() == got.utcoffset()
     return lab.strict_eq(exp, got)
 
 
@@ -77,6 +87,11 @@ def run_case(case):
             # a field name with leading / trailing blanks is a name like any other
             fields[0]['name'] = rng_x.choice([fields[0]['name'] + ' ', ' ' + fields[0]['name']])
             cov['config']['field_name_with_outer_blank'] = 1
+        for fd in fields:
+            if fd['type'] == 'datetime' and 'outputFormat' not in fd and rng_x.random() < 0.15:
+                # zone-aware datetimes, as load() produces them for a format with %z
+                fd['format'] = '%Y-%m-%dT%H:%M:%S%z'
+                cov['config']['datetime_format_with_utc_offset'] = 1
         long_cell = rng_x.random() < 0.04 and any(fd['type'] == 'string' for fd in fields)
         pk = None
         if rng.random() < 0.4:
@@ -94,6 +109,13 @@ def run_case(case):
                 classes = None
                 if fd['type'] in ('date', 'datetime') and 'outputFormat' in fd:
                     classes = ['plain', 'late', 'early']
+                if fd.get('format', '').endswith('%z'):
+                    if rng.random() < 0.15:
+                        row[fd['name']] = None
+                    else:
+                        row[fd['name']] = rng.choice(AWARE)
+                        tcov['datetime/aware/%s' % fmt] = tcov.get('datetime/aware/%s' % fmt, 0) + 1
+                    continue
                 if fd['type'] == 'string' and not strip and False:
                     classes = None
                 v, c = gen.value(rng, fd['type'], classes, null_p=0.15)
